@@ -658,6 +658,12 @@ def corpus_modules(tier):
                        ("Big", INT, "70000"), ("Ext", {"k": "int", "lo": 0, "hi": 255, "ext": True}, "7")):
         out.append([mod("M", [(nm, t), ("T", {"k": "seq", "fields": [field("a", BOOL), field("d", {"k": "ref", "name": nm}, dflt=lit)]})])])
         out.append([mod("M", [(nm, t), ("T", {"k": "seq", "ext": 0, "fields": [field("a", BOOL), field("d", {"k": "ref", "name": nm}, dflt=lit)]})])])
+    # value assignments governed by an extensible INTEGER: inside the root (also below zero with MIN) and outside of it
+    out.append([mod("M", [("T", BOOL)], values=[("below-zero", "INTEGER (MIN..-1, ...)", "-5"), ("beyond-root", "INTEGER (0..7, ...)", "300"),
+                                                  ("beyond-signed", "INTEGER (-8..7, ...)", "200"), ("within-root", "INTEGER (0..7, ...)", "3"),
+                                                  ("neg-root", "INTEGER (-8..7, ...)", "-8"), ("far-below", "INTEGER (-8..7, ...)", "-70000")])])
+    out.append([mod("M", [("T", {"k": "seq", "fields": [field("level", {"k": "int", "lo": 0, "hi": 7, "ext": True}, dflt="300")]})],
+                    values=[("wide", "INTEGER (0..255, ...)", "70000")])])
     # a named CHOICE, used as a component, whose alternatives reference the same (explicitly tagged / untagged)
     # type assignment more than once: the tag of the CHOICE is looked up through each of them
     for ctag in ({"tag": "[APPLICATION 3]"}, {}):
